@@ -139,7 +139,46 @@ impl<'a> Peekable<TokenIterator<'a>> {
     }
 }
 
+impl<'a> Peekable<TokenIterator<'a>> {
+    /// Clone of the token stream: an independent cursor over the same remaining tokens
+    #[verifier::external_body]
+    pub fn clone(&self) -> (r: Self)
+        ensures
+            r.toks() == self.toks(),
+    {
+        unimplemented!()
+    }
+}
+
 pub type Iter<'a> = Peekable<TokenIterator<'a>>;
+
+/// i64::from_str on a short all-digit string (N11); other inputs: Ok or Err, nothing promised
+#[verifier::external_body]
+pub fn vx_i64_from_str(s: &str) -> (r: Result<i64, VxParseIntError>)
+    ensures
+        (1 <= s@.len() <= 18 && forall|i: int| 0 <= i < s@.len() ==> is_dec_digit(#[trigger] s@[i])) ==> r is Ok && r->Ok_0 == dec_value(s@),
+{
+    unimplemented!()
+}
+
+/// u64::from_str_radix(s, 10) (N11)
+#[verifier::external_body]
+pub fn vx_u64_from_dec(s: &str, radix: u32) -> (r: Result<u64, VxParseIntError>)
+    requires
+        radix == 10,
+    ensures
+        (1 <= s@.len() <= 19 && forall|i: int| 0 <= i < s@.len() ==> is_dec_digit(#[trigger] s@[i])) ==> r is Ok && r->Ok_0 == dec_value(s@),
+{
+    unimplemented!()
+}
+
+/// ASCII strings take one byte per character (trusted; UTF-8)
+pub broadcast axiom fn axiom_byte_len_ascii(s: Seq<char>)
+    requires
+        forall|i: int| 0 <= i < s.len() ==> (#[trigger] s[i] as u32) < 0x80,
+    ensures
+        #[trigger] byte_len(s) == s.len(),
+;
 
 /// Option<&Token>::cloned (N11)
 #[verifier::external_body]
